@@ -664,4 +664,5 @@ func runC18(c *Ctx) {
 	c18Recv(c)
 	c18E2E(c)
 	c18Straddle(c)
+	c18Retransmit(c) // scripted peer: retransmissions (block 0 too) and a slow line (c18_retransmit.go)
 }
